@@ -59,8 +59,10 @@ pub fn microlp_class(case: &LinCase, truth: &Verdict, w: Which, ans: &Ans) -> &'
     }
 }
 
+/// a continuous variable without a finite lower bound (free, or bounded above only): the shape
+/// on which the microlp defects were observed
 pub fn has_free_var(case: &LinCase) -> bool {
-    case.vars.iter().any(|v| matches!(v.1, Dom::Real(None, None)))
+    case.vars.iter().any(|v| matches!(v.1, Dom::Real(None, _)))
 }
 
 /// Is the set of optimal points unbounded (some variable is unbounded over the optimal face)?
